@@ -8,25 +8,6 @@ open FormulaicVerif.Proofs.C19 (lookup_dictSet)
 variable {ν : Type}
 
 /-! ### the layered context -/
-theorem getWithLayerName_lm (L : Layers ν) (k : String) :
-    L.lm.getWithLayerName k = firstLayer L k := by
-  have hd : joinPath ([] ++ ["data"]) = some "data" := by decide
-  have hc : joinPath ([] ++ ["context"]) = some "context" := by decide
-  have ht : joinPath ([] ++ ["transforms"]) = some "transforms" := by decide
-  have nd : named (some "data") = some "data" := by decide
-  have nc : named (some "context") = some "context" := by decide
-  have nt : named (some "transforms") = some "transforms" := by decide
-  have n0 : named none = none := rfl
-  simp only [Layers.lm, LM.getWithLayerName, LM.toLayer, Layer.getNamed, getNamedL, nd, nc, nt, n0, hd, hc, ht,
-    firstLayer, List.lookup]
-  cases h1 : L.data.lookup k <;> cases h2 : L.context.lookup k <;> cases h3 : L.transforms.lookup k <;>
-    simp
-
-/-- derived from C19.4a (`lm_lookup_topfirst`) -/
-theorem get_lm (L : Layers ν) (k : String) : L.lm.get k = valueOf L k := by
-  have := (FormulaicVerif.Props.C19.lm_lookup_topfirst L.lm).1 k
-  simpa [Layers.lm, flatL, Layer.flat, valueOf, List.append_assoc] using this
-
 theorem lookup_append_none {γ : Type} (a b : List (String × γ)) (k : String) :
     (a ++ b).lookup k = match a.lookup k with | some v => some v | none => b.lookup k := by
   induction a with
@@ -36,17 +17,75 @@ theorem lookup_append_none {γ : Type} (a b : List (String × γ)) (k : String) 
     simp only [List.cons_append, List.lookup]
     cases k == k0 <;> simp [ih]
 
+/-- the value found inside the caller's context (derived from C19: `getNamed_fst`, `get_eq_lookup_flat`) -/
+theorem context_getNamed_fst (L : Layers ν) (path : List String) (here : Option String) (k : String) :
+    (L.context.getNamed path here k).map (·.1) = (contextItems L).lookup k := by
+  rw [FormulaicVerif.Proofs.C19.getNamed_fst, FormulaicVerif.Proofs.C19.get_eq_lookup_flat]; rfl
+
+theorem getNamed_top3 (A B C : Layer ν) (k : String) :
+    (Layer.lm none [] [A, B, C]).getNamed [] none k =
+      match A.getNamed [] none k with
+      | some x => some x
+      | none => match B.getNamed [] none k with
+        | some x => some x
+        | none => match C.getNamed [] none k with
+          | some x => some x
+          | none => none := by
+  have hj : joinPath ([] : List String) = none := rfl
+  have n0 : named (none : Option String) = none := rfl
+  simp only [Layer.getNamed, n0, hj, List.lookup, getNamedL]
+  cases A.getNamed [] none k <;> cases B.getNamed [] none k <;> cases C.getNamed [] none k <;> rfl
+
+theorem getNamed_named_single (n : String) (hn : named (some n) = some n) (l : Layer ν)
+    (here : Option String) (k : String) :
+    (Layer.lm (some n) [] [l]).getNamed [] here k = l.getNamed [n] (joinPath [n]) k := by
+  have hl : ([] : List String) ++ [n] = [n] := rfl
+  simp only [Layer.getNamed, hn, hl, List.lookup, getNamedL]
+  cases l.getNamed [n] (joinPath [n]) k <;> rfl
+
+theorem getNamed_dict (d : List (String × ν)) (path : List String) (here : Option String) (k : String) :
+    (Layer.dict d).getNamed path here k = (d.lookup k).map (fun v => (v, here)) := by
+  simp only [Layer.getNamed]
+
+theorem getWithLayerName_lm (L : Layers ν) (k : String) :
+    L.lm.getWithLayerName k = firstLayer L k := by
+  have hd : joinPath ["data"] = some "data" := by decide
+  have hc : joinPath ["context"] = some "context" := by decide
+  have ht : joinPath ["transforms"] = some "transforms" := by decide
+  have h0 : (L.lm.getWithLayerName k) =
+      (Layer.lm none [] [.lm (some "data") [] [.dict L.data], .lm (some "context") [] [L.context],
+        .lm (some "transforms") [] [.dict L.transforms]]).getNamed [] none k := rfl
+  rw [h0, getNamed_top3, getNamed_named_single "data" (by decide), getNamed_named_single "context" (by decide),
+    getNamed_named_single "transforms" (by decide), getNamed_dict, getNamed_dict, hd, hc, ht]
+  simp only [firstLayer]
+  cases h1 : L.data.lookup k <;> cases h2 : L.context.getNamed ["context"] (some "context") k <;>
+    cases h3 : L.transforms.lookup k <;> rfl
+
+/-- derived from C19.4a (`lm_lookup_topfirst`) -/
+theorem get_lm (L : Layers ν) (k : String) : L.lm.get k = valueOf L k := by
+  have := (FormulaicVerif.Props.C19.lm_lookup_topfirst L.lm).1 k
+  simpa [Layers.lm, flatL, Layer.flat, valueOf, contextItems, List.append_assoc] using this
+
 theorem valueOf_eq (L : Layers ν) (k : String) :
     valueOf L k = match L.data.lookup k with
       | some v => some v
-      | none => match L.context.lookup k with
+      | none => match (contextItems L).lookup k with
         | some v => some v
         | none => L.transforms.lookup k := by
   simp only [valueOf, List.append_assoc, lookup_append_none]
 
 theorem firstLayer_fst (L : Layers ν) (k : String) : (firstLayer L k).map (·.1) = valueOf L k := by
   rw [valueOf_eq]; simp only [firstLayer]
-  cases L.data.lookup k <;> cases L.context.lookup k <;> cases L.transforms.lookup k <;> rfl
+  have hc := context_getNamed_fst L ["context"] (some "context") k
+  cases L.data.lookup k with
+  | some v => rfl
+  | none =>
+    simp only
+    cases hx : L.context.getNamed ["context"] (some "context") k with
+    | some x => rw [hx] at hc; simp only [Option.map] at hc; rw [← hc]; rfl
+    | none =>
+      rw [hx] at hc; simp only [Option.map] at hc; rw [← hc]
+      cases L.transforms.lookup k <;> rfl
 
 theorem lookup_isSome_iff_mem {γ : Type} (d : List (String × γ)) (k : String) :
     (∃ v, d.lookup k = some v) ↔ k ∈ d.map (·.1) := by
@@ -105,7 +144,7 @@ theorem remove_data_lookup (L : Layers ν) (v k : String) :
 theorem valueOf_restrict (L : Layers ν) (keep : List String) (k : String)
     (h : k ∈ dataKeys L → k ∈ keep) : valueOf (L.restrict keep) k = valueOf L k := by
   rw [valueOf_eq, valueOf_eq, restrict_data_lookup]
-  have hc : (L.restrict keep).context = L.context := rfl
+  have hc : contextItems (L.restrict keep) = contextItems L := rfl
   have ht : (L.restrict keep).transforms = L.transforms := rfl
   rw [hc, ht]
   by_cases hk : keep.contains k = true
@@ -151,13 +190,58 @@ theorem lookupAll_none_remove (L : Layers ν) (v k : String) (h : lookupAll L k 
 theorem lookupAll_remove_self (L : Layers ν) (v : String) (h : Unshadowed L v) :
     lookupAll (L.remove v) v = none := by
   obtain ⟨h1, h2, h3⟩ := h
-  simp only [lookupAll, valueOf_eq, remove_data_lookup, beq_self_eq_true, if_true]
-  simp [Layers.remove, h1, h2, h3]
+  have hc : contextItems (L.remove v) = contextItems L := rfl
+  simp only [lookupAll, valueOf_eq, remove_data_lookup, beq_self_eq_true, if_true, hc, h1]
+  simp [Layers.remove, h2, h3]
 
 theorem firstLayer_remove_self (L : Layers ν) (v : String) (h : Unshadowed L v) :
     firstLayer (L.remove v) v = none := by
   obtain ⟨h1, h2, _⟩ := h
-  simp only [firstLayer, remove_data_lookup, beq_self_eq_true, if_true]
-  simp [Layers.remove, h1, h2]
+  have hc := context_getNamed_fst L ["context"] (some "context") v
+  rw [h1] at hc
+  have hn : L.context.getNamed ["context"] (some "context") v = none := by
+    cases hx : L.context.getNamed ["context"] (some "context") v with
+    | none => rfl
+    | some x => rw [hx] at hc; cases hc
+  have hctx : (L.remove v).context = L.context := rfl
+  simp only [firstLayer, remove_data_lookup, beq_self_eq_true, if_true, hctx, hn]
+  simp [Layers.remove, h2]
+
+
+/-! ### sources inside a context without named sub-layers -/
+mutual
+theorem getNamed_unnamed : ∀ (l : Layer ν) (path : List String) (k : String), allUnnamed l = true →
+    l.getNamed path (joinPath path) k = (l.flat.lookup k).map (fun v => (v, joinPath path))
+  | .dict d, path, k, _ => by simp only [Layer.getNamed, Layer.flat]
+  | .lm name muts layers, path, k, h => by
+    simp only [allUnnamed, Bool.and_eq_true, Option.isNone_iff_eq_none] at h
+    have ih := getNamedL_unnamed layers path k h.2
+    simp only [Layer.getNamed, h.1, Layer.flat, lookup_append_none]
+    cases muts.lookup k with
+    | some v => rfl
+    | none => exact ih
+theorem getNamedL_unnamed : ∀ (ls : List (Layer ν)) (path : List String) (k : String), allUnnamedL ls = true →
+    getNamedL ls path (joinPath path) k = ((flatL ls).lookup k).map (fun v => (v, joinPath path))
+  | [], path, k, _ => by simp [getNamedL, flatL]
+  | l :: r, path, k, h => by
+    simp only [allUnnamedL, Bool.and_eq_true] at h
+    have h1 := getNamed_unnamed l path k h.1
+    have h2 := getNamedL_unnamed r path k h.2
+    simp only [getNamedL, flatL, lookup_append_none, h1]
+    cases l.flat.lookup k with
+    | some v => rfl
+    | none => exact h2
+end
+
+/-- a key found in a caller context without named sub-layers is reported with source `context` -/
+theorem firstLayer_context (L : Layers ν) (hu : allUnnamed L.context = true) (k : String) (v : ν)
+    (hd : L.data.lookup k = none) (hc : (contextItems L).lookup k = some v) :
+    firstLayer L k = some (v, some "context") := by
+  have hj : joinPath ["context"] = some "context" := by decide
+  have := getNamed_unnamed L.context ["context"] k hu
+  rw [hj] at this
+  simp only [firstLayer, hd, this]
+  have hc' : L.context.flat.lookup k = some v := hc
+  rw [hc']; rfl
 
 end FormulaicVerif.Proofs.C17
